@@ -128,7 +128,9 @@ class InlineTranslator:
             new_elements.append(elem.update(terms=new_terms, condition=transformed + rest_condition))
         return new_elements
 
-    def inline_body_aggregate(self, rule: AST, atom: AST, unique_vars: UniqueVariables) -> AST:
+    def inline_body_aggregate(
+        self, rule: AST, atom: AST, unique_vars: UniqueVariables, statement_globals: Optional[set[AST]] = None
+    ) -> AST:
         """inline rule into this body aggregate atom"""
         # pylint: disable=too-many-branches
         hatom = rule.head.atom
@@ -197,6 +199,8 @@ class InlineTranslator:
             weight = replace_elem.terms[0]
             if weight.ast_type != ASTType.Variable or collect_ast(replace_elem, "Variable").count(weight) != 2:
                 return atom
+            if statement_globals and weight in statement_globals:
+                return atom  # bound outside of the aggregate: a test on the value, not the value itself
             # all other arguments must be part of the tuple, otherwise values of different instances of the
             # inlined rule are no longer told apart (set semantics of the tuple)
             tuple_vars = set()
@@ -472,7 +476,10 @@ class InlineTranslator:
         new_body: list[AST] = []
         for blit in orig.body:
             if blit.ast_type == ASTType.Literal and blit.atom.ast_type == ASTType.BodyAggregate:
-                new_body.append(blit.update(atom=self.inline_body_aggregate(stm, blit.atom, unique_vars)))
+                statement_globals = global_vars_inside_body(orig.body) | set(collect_ast(orig.head, "Variable"))
+                new_body.append(
+                    blit.update(atom=self.inline_body_aggregate(stm, blit.atom, unique_vars, statement_globals))
+                )
             else:
                 new_body.append(blit)
         return orig.update(body=new_body)
